@@ -32,7 +32,7 @@ def run(ctx):
     ctx.rule("P3", "Status/Arbiter/Dispatcher: request <- ongoing of the same master; connect gated by grant == same "
                    "index; selector latched only on first; default arm drains", min_sites=14)
     ctx.rule("P4", "per-packet FSM registers (word counter, from-idle marker) are re-initialised in IDLE / on every exit of IDLE: "
-                   "nothing is inherited from the previous packet", min_sites=4)
+                   "nothing is inherited from the previous packet; a packet ends only with the hand-over of its last beat", min_sites=10)
     ctx.rule("PRIO", "no dead driver", min_sites=4)
 
     from ..rules_stream import packetfifo_geometry
@@ -55,6 +55,17 @@ def run(ctx):
             ctx.ob("P4", PACKET, cls, "stored last flag cleared when the packet's last beat is handed over", ok,
                    "" if ok else f"{[(a.v, a.gtext()) for a in cl]}: the next packet starts with last already set (terminated on its first "
                                  f"data beat, its word never accepted)", cl[0].line if cl else 0)
+        # a packet ends only with the hand-over of its last beat: every way back to IDLE from a data state needs valid & ready & last on
+        # the source (a `last` that is already up while no beat is offered must not end the packet: the header would be sent again)
+        back = [t for t in fx.trans if t.dst == "IDLE" and t.src != "IDLE" and "DATA" in str(t.src)]
+        ctx.ob("P4", PACKET, cls, "data states return to IDLE:present", bool(back), "no transition from a data state back to IDLE", 0)
+        for t in back:
+            G = q.Inliner(fx, t).gformula(t)
+            need = q.Inliner(fx, t).inline(B.from_expr("self.source.valid & self.source.ready & self.source.last"))
+            ok = B.entails(G, need)
+            ctx.ob("P4", PACKET, cls, f"{t.src} -> IDLE only with the last beat handed over", ok,
+                   "" if ok else f"{t.src} -> IDLE under {short(B.show(G), 160)}: does not need source.valid & source.ready & source.last (e.g. "
+                                 f"{B.counterexample(G, need)}): the packet is cut where no beat is transferred", t.node)
         prio(ctx, "PRIO", fx, cls)
         # S3: `count` steps (value count + 1) only on a transferred word of the state
         hs = "self.source.valid & self.source.ready" if cls == "Packetizer" else "self.sink.valid & self.sink.ready"
